@@ -350,6 +350,14 @@ def judge_srv(J, case, fw, chunks, obs, mline):
     if ("onOpen" in ev) != impl.startswith("open ") or ("onOpen" in ev and ev[:2] != ["onConnect", "onOpen"]):
         J.violation("server-callbacks-inconsistent", "onConnect/onOpen callbacks %s do not fit the outcome %s [%s]" % (
             ev, impl[:40], case["label"]), rp)
+    if impl.startswith("open ") and spec != "1" and why == "host" and host_port_not_digits(b"".join(chunks)):
+        why = "host-port-syntax"
+    if impl.startswith("open ") and spec == "1":
+        lex = strict_lexing_gap(b"".join(chunks))
+        if lex:
+            J.violation("server-opens-invalid:python-line-and-blank-lexing",
+                        "server completes the handshake for a header block that only Python's str.splitlines/strip read as valid "
+                        "(%s) [%s]" % (lex, case["label"]), rp)
     if impl.startswith("open ") and spec != "1":
         J.violation("server-opens-invalid:" + why, "server completes the handshake for a request that is not valid (%s) [%s]" % (
             why, case["label"]), rp)
@@ -373,6 +381,40 @@ def judge_srv(J, case, fw, chunks, obs, mline):
             return      # already a violation with a concrete input
         J.brk({"stream": "server model vs implementation", "fw": fw, "label": case["label"], "impl": impl[:300], "model": model[:300],
                "replay": rp})
+
+
+def _strict_headers(data):
+    """independent RFC 7230 reading of the header block: lines end with CRLF (a bare LF is tolerated: RFC 7230 3.5 allows a recipient
+    to take it for a line end), field = name ":" OWS value OWS with OWS = SP / HTAB only"""
+    head = data.split(b"\r\n\r\n")[0]
+    hs = {}
+    for l in re.split(rb"\r?\n", head)[1:]:
+        i = l.find(b":")
+        if i > 0:
+            hs.setdefault(l[:i].strip(b" \t").lower(), []).append(l[i + 1:].strip(b" \t"))
+    return hs
+
+
+def strict_lexing_gap(data):
+    """-> what a strict reader misses in a request the server opened for ('' if nothing): the required fields are there only if
+    VT / FF / FS / GS / RS / NEL / bare CR count as line ends or \x1c-\x1f, \x85, \xa0 as blanks (str.splitlines / str.strip)"""
+    hs = _strict_headers(data)
+
+    def tokens(k):
+        return [t.strip(b" \t").lower() for v in hs.get(k, []) for t in v.split(b",")]
+    miss = [k.decode() for k in (b"host", b"sec-websocket-key", b"sec-websocket-version") if len(hs.get(k, [])) != 1]
+    if b"websocket" not in tokens(b"upgrade"):
+        miss.append("upgrade")
+    if b"upgrade" not in tokens(b"connection"):
+        miss.append("connection")
+    if not miss and not re.fullmatch(rb"[0-9]{1,3}", hs[b"sec-websocket-version"][0]):
+        miss.append("version")
+    return ",".join(miss)
+
+
+def host_port_not_digits(data):
+    h = _strict_headers(data).get(b"host", [b""])[0]
+    return b":" in h and not h.endswith(b"]") and not re.fullmatch(rb"[0-9]*", h.rsplit(b":", 1)[1])
 
 
 def check_reply(case, w, chunks):
